@@ -174,6 +174,7 @@ func enumSeqExact(alpha []string, n int, f func([]string)) {
 }
 
 func propC11(c *Ctx) {
+	propScaleScanner(c)
 	alpha := []rune{'x', '\n', '\r'}
 	opAlpha := []string{"r", "u", "m2", "x"}
 	maxC, nOps := 4, 6
